@@ -213,3 +213,31 @@ Proof.
 Qed.
 
 End Routing.
+
+(* ---------- homogeneity: U(s x) = s^L U(x), V(s x) = s V(x) (C11, C07) ---------- *)
+Section Homogeneity.
+Variable F : rcfType.
+Variables (nE nL nD : nat) (S : 'M[F]_(nE, nL)) (x m2 : 'rV[F]_nE) (P : 'M[F]_(nE, nD)) (s : F).
+
+Lemma Lm_scale : Lm S (s *: x) = s *: Lm S x.
+Proof. by rewrite /Lm /Xd linearZ /= -scalemxAr -scalemxAl. Qed.
+
+(* U(s x) = s^L U(x) *)
+Lemma U_homogeneous : \det (Lm S (s *: x)) = s ^+ nL * \det (Lm S x).
+Proof. by rewrite Lm_scale detZ. Qed.
+
+Lemma Um_scale : Um S (s *: x) P = s *: Um S x P.
+Proof. by rewrite /Um /Xd linearZ /= -scalemxAr -scalemxAl. Qed.
+
+Lemma base_scale : base (s *: x) m2 P = s * base x m2 P.
+Proof. by rewrite /base mulr_sumr; apply: eq_bigr => e _; rewrite mxE mulrA. Qed.
+
+(* V(s x) = s V(x) *)
+Lemma V_homogeneous : s != 0 -> Lm S x \in unitmx ->
+  Vpoly S (s *: x) m2 P = s * Vpoly S x m2 P.
+Proof.
+  move=> Hs HL. rewrite /Vpoly base_scale Um_scale Lm_scale invmxZ; last by rewrite unitmxZ ?unitfE.
+  rewrite [(s *: _)^T]linearZ /= -!scalemxAl -!scalemxAr !scalerA [\tr _]linearZ /= mulrBr.
+  by rewrite -scalemxAl [\tr _]linearZ /= mulrA mulfK.
+Qed.
+End Homogeneity.
